@@ -636,8 +636,16 @@ class Interp:
 
     def s_Assert(self, s):
         c = self.eval(s.test)
-        self.ctx.oblige("%s.assert" % self.short(), self.truth_term(c),
+        t = self.truth_term(c)
+        self.ctx.oblige("%s.assert" % self.short(), t,
                         detail="assert at %s:%d" % (self.short(), s.lineno))
+        # past the assert the condition holds (otherwise Python has raised AssertionError): a definitely false condition
+        # ends the path, a symbolic one becomes a hypothesis of the rest of the path
+        if not z3.is_expr(t):
+            if not t:
+                raise PathEnd()
+        else:
+            self.ctx.assume(t)
 
     def s_Try(self, s):
         if s.finalbody or s.orelse:
